@@ -421,6 +421,43 @@ fn short_psbt(w: &RWorld, sc: &[u8], stack: Vec<Vec<u8>>, tap: bool) -> Option<V
     Some(psbt.serialize())
 }
 
+/// one unfinalized input spending p2wsh(script) / p2tr(leaf = script), with signatures of the world's keys
+fn script_psbt(w: &RWorld, sc: &[u8], tap: bool) -> Option<Vec<u8>> {
+    let ds = DummySat { w, keys: !0, pre: !0, lt: 0, seq: 0, big: vec![] };
+    let script = ScriptBuf::from_bytes(sc.to_vec());
+    let mut inp = bitcoin::psbt::Input::default();
+    let spk = if tap {
+        let internal = w.w.pks[1].inner.x_only_public_key().0;
+        let info = TaprootBuilder::new().add_leaf(0, script.clone()).ok()?.finalize(&w.secp, internal).ok()?;
+        let cb = info.control_block(&(script.clone(), LeafVersion::TapScript))?;
+        inp.tap_scripts.insert(cb, (script.clone(), LeafVersion::TapScript));
+        inp.tap_internal_key = Some(internal);
+        inp.tap_merkle_root = info.merkle_root();
+        let lh = bitcoin::TapLeafHash::from_script(&script, LeafVersion::TapScript);
+        for i in 0..3 {
+            inp.tap_script_sigs.insert((w.w.pks[i].inner.x_only_public_key().0, lh), ds.schnorr());
+        }
+        ScriptBuf::new_p2tr_tweaked(info.output_key())
+    } else {
+        inp.witness_script = Some(script.clone());
+        for i in 0..3 {
+            inp.partial_sigs.insert(w.w.pks[i], ds.ecdsa());
+        }
+        script.to_p2wsh()
+    };
+    let prev = prev_tx(&spk, 0, 1, 17);
+    inp.witness_utxo = Some(prev.output[0].clone());
+    let tx = Transaction {
+        version: bitcoin::transaction::Version::TWO,
+        lock_time: absolute::LockTime::ZERO,
+        input: vec![TxIn { previous_output: OutPoint { txid: prev.compute_txid(), vout: 0 }, script_sig: ScriptBuf::new(), sequence: Sequence::from_consensus(0xffff_fffd), witness: Witness::new() }],
+        output: vec![TxOut { value: Amount::from_sat(1000), script_pubkey: ScriptBuf::from_bytes(vec![0x51]) }],
+    };
+    let mut psbt = Psbt::from_unsigned_tx(tx).ok()?;
+    psbt.inputs[0] = inp;
+    Some(psbt.serialize())
+}
+
 pub const N_PSBT_PKH: u64 = 2 * 4 * 3 * 2; // uncompressed key x script form x wrapping x in bip32_derivation?
 /// the minimised PSBT of the thorough-tier finding (regen 1:92935), kept as a regression input
 const CORPUS_PKLEN: &str = include_str!("corpus_psbt_pklen.hex");
@@ -438,6 +475,17 @@ pub fn g_psbt(w: &RWorld, rng: &mut Rng, _idx: u64) -> (Input, &'static str) {
         let (sc, stack, kind) = short_case(w, si, rr, 0xffff_fffd, 0);
         if let Some(b) = short_psbt(w, &sc, stack, kind == 4) {
             return (Input::Psbt { psbt: b, idx: 0, desc: String::new() }, "short-final-witness");
+        }
+    }
+    // large counts in front of NUMEQUAL / CHECKMULTISIG / EQUAL as tap leaf / witness script of an
+    // unfinalized input (the finalizer decodes them)
+    let num_base = short_base + n_scripts * 14;
+    if _idx >= num_base && _idx < num_base + 2 * N_NUM_SCRIPTS as u64 {
+        let j = (_idx - num_base) as usize;
+        let tap = j / N_NUM_SCRIPTS == 1;
+        let (sc, label) = num_script(w, if tap { 3 } else { 2 }, j % N_NUM_SCRIPTS);
+        if let Some(b) = script_psbt(w, &sc, tap) {
+            return (Input::Psbt { psbt: b, idx: 0, desc: String::new() }, label);
         }
     }
     if _idx == N_PSBT_DEEP {
